@@ -1848,4 +1848,531 @@ example : LiveReplica exCluster exCfg exRq ⟨3, some 0, some 3⟩ ∧ LocalDc e
       revert h3; decide, Or.inr (Or.inl rfl)⟩
 example : shuffleWith [1, 0, 5] [10, 20, 30] = [20, 10, 30] := by decide
 
+/-! ### the `Hash` / `Eq` contract of the target comparator -/
+
+/-- **The hash map of `unique_by` is invisible**: `impl Hash` reads the host id only, so equal keys (under the
+non-transitive `impl Eq`) always share a bucket, and looking a probe up among the stored keys of its own hash finds an
+equal key iff one was kept at all. -/
+theorem uniqueByHashed_targetHash (l : List Target) : uniqueByHashed targetHash l = uniqueBy l :=
+  uniqueByHashedFrom_eq targetHash_contract [] l
+
+/-- ... for `fallback` as defined: the literal hash-map formulation gives the same list. -/
+theorem fallback_hashed (cl : Cluster) (cfg : Config) (rq : Request) (ρ : RhoFb) :
+    fallback cl cfg rq ρ = uniqueByHashed targetHash (fallbackGroups cl cfg rq ρ).flatten :=
+  (uniqueByHashed_targetHash _).symm
+
+/-- **The hash must not read the shard**: with ANY hash that separates a sharded target from the shard-less target of
+the same node (as a derived `Hash` over `(host_id, shard)` does), the two are both kept - the node is named twice. -/
+theorem comparator_hash_must_ignore_shard (hash : Target → Nat) (n : Node) (s : Nat)
+    (h : hash (n, some s) ≠ hash (n, none)) :
+    uniqueByHashed hash [(n, some s), (n, none)] = [(n, some s), (n, none)] ∧
+      uniqueBy [(n, some s), (n, none)] = [(n, some s)] := by
+  constructor
+  · simp [uniqueByHashed, uniqueByHashedFrom, h]
+  · simp [uniqueBy, uniqueByFrom, targetEq]
+
+/-- What `unique_by` guarantees for ARBITRARY shards (no "one shard per node" assumption; tablet replicas may name a node
+with two shards): no two kept targets are equal under the comparator, every dropped one equals a kept one. -/
+theorem uniqueBy_spec (l : List Target) :
+    (uniqueBy l).Sublist l ∧ (uniqueBy l).Pairwise (fun a b => targetEq a b = false) ∧
+      ∀ t ∈ l, ∃ u ∈ uniqueBy l, targetEq u t = true := by
+  refine ⟨uniqueByFrom_sublist [] l, (uniqueByFrom_pairwise [] l).1, ?_⟩
+  intro t ht
+  rcases uniqueByFrom_cover (seen := []) ht with ⟨s, hs, _⟩ | h
+  · simp at hs
+  · exact h
+
+-- the two-shards arm of the comparator: the same node with two different shards is two targets, the shard-less one is
+-- equal to both (the comparator is not transitive)
+example : uniqueBy [(⟨1, none, none⟩, some 3), (⟨1, none, none⟩, some 5), (⟨1, none, none⟩, none), (⟨1, none, none⟩, some 3)] =
+    [(⟨1, none, none⟩, some 3), (⟨1, none, none⟩, some 5)] := by decide
+
+/-! ### tablet tables: the plan of the default policy when the replicas come from the tablet map
+
+`Routing.planT cl cfg rq V` (C12's model, `Model/Routing.lean`) is `DefaultPolicy::{pick, fallback}` + `Plan` on a
+`ReplicaSetInner::PlainSharded` set: `V none` = the covering tablet's replicas `(node, shard)`, `V (some d)` = its
+replicas in datacenter `d`.  The theorems hold for ANY `V` - any shards, a node listed with several shards - under
+`TabletOK`. -/
+
+open ScyllaVerif.Routing in
+/-- What `update_tablets` guarantees about a tablet's replica lists: the per-datacenter lists are sublists of the full
+list (C15: order-preserving filter) in that datacenter, and known nodes with equal host id are the same node. -/
+structure TabletOK (cl : Cluster) (V : Option Nat → List SRep) : Prop where
+  dcSub : ∀ d, ∀ r ∈ V (some d), r ∈ V none ∧ r.1.dc = some d
+  distinctIds : ∀ a b : Node, (a ∈ allNodes cl ∨ a ∈ (V none).map (·.1)) → (b ∈ allNodes cl ∨ b ∈ (V none).map (·.1)) →
+    a.id = b.id → a = b
+
+section tablets
+open ScyllaVerif.Routing
+
+/-- The chain of `fallbackT`. -/
+private def chainT (cl : Cluster) (cfg : Config) (rq : Request) (V : Option Nat → List SRep) (ρ : RhoFb) : List (List Target) :=
+  (if tokenAware cl cfg rq then replicaGroupsT cl cfg rq V ρ else []) ++ (fallbackGroups cl cfg (rqNoToken rq) ρ).drop 3
+
+private theorem mem_replicaTargetsT (cl : Cluster) (V : Option Nat → List SRep) (crit : Pref) (lwt : Bool) (shuf : List Nat)
+    (t : Target) : t ∈ replicaTargetsT cl V crit lwt shuf ↔ ∃ r ∈ filteredT cl V crit, t = targetT r := by
+  unfold replicaTargetsT
+  rw [List.mem_map]
+  have : ∀ r, r ∈ (if lwt = true then filteredT cl V crit else shuffleWith shuf (filteredT cl V crit)) ↔
+      r ∈ filteredT cl V crit := by
+    intro r; split
+    · rfl
+    · exact (shuffleWith_perm shuf _).mem_iff
+  constructor
+  · rintro ⟨r, hr, rfl⟩; exact ⟨r, (this r).mp hr, rfl⟩
+  · rintro ⟨r, hr, rfl⟩; exact ⟨r, (this r).mpr hr, rfl⟩
+
+/-- Members of the replica groups: a live replica of the tablet (of the datacenter / rack the group asks for) with the
+tablet's shard. -/
+private theorem mem_replicaGroupsT {cl : Cluster} {cfg : Config} {rq : Request} {V : Option Nat → List SRep} {ρ : RhoFb}
+    {t : Target} (h : t ∈ (replicaGroupsT cl cfg rq V ρ).flatten) :
+    ∃ crit, ∃ r ∈ filteredT cl V crit, t = targetT r ∧
+      (crit.datacenter = none ∨ crit.datacenter = (preference cfg rq).datacenter) ∧
+      (crit.datacenter = none → ((preference cfg rq).datacenter = none ∨ failoverPossible cfg rq = true)) := by
+  unfold replicaGroupsT at h
+  simp only [List.flatten_cons, List.flatten_nil, List.append_nil, List.mem_append] at h
+  rcases h with h | h | h
+  · split at h
+    · rename_i d r hp
+      obtain ⟨x, hx, rfl⟩ := (mem_replicaTargetsT _ _ _ _ _ _).mp h
+      exact ⟨.dcRack d r, x, hx, rfl, Or.inr (by rw [hp]), by intro hc; cases hc⟩
+    · simp at h
+  · split at h
+    · rename_i d hp
+      obtain ⟨x, hx, rfl⟩ := (mem_replicaTargetsT _ _ _ _ _ _).mp h
+      exact ⟨.dc d, x, hx, rfl, Or.inr (by rw [hp]; rfl), by intro hc; cases hc⟩
+    · simp at h
+  · split at h
+    · rename_i hc
+      obtain ⟨x, hx, rfl⟩ := (mem_replicaTargetsT _ _ _ _ _ _).mp h
+      refine ⟨.any, x, hx, rfl, Or.inl rfl, fun _ => ?_⟩
+      simpa [Option.isNone_iff_eq_none] using hc
+    · simp at h
+
+private theorem mem_filteredT {cl : Cluster} {V : Option Nat → List SRep} {crit : Pref} {r : SRep}
+    (h : r ∈ filteredT cl V crit) : r ∈ V crit.datacenter ∧ cl.alive r.1 = true ∧ rackOk crit r.1 = true := by
+  unfold filteredT predT at h
+  obtain ⟨h1, h2⟩ := List.mem_filter.mp h
+  simp only [Bool.and_eq_true] at h2
+  exact ⟨h1, h2.1, h2.2⟩
+
+/-- Members of the node groups (the token-unaware part): shard-less ring nodes of one of the last five predicates. -/
+private theorem mem_nodeGroupsT {cl : Cluster} {cfg : Config} {rq : Request} {ρ : RhoFb} {t : Target}
+    (h : t ∈ ((fallbackGroups cl cfg (rqNoToken rq) ρ).drop 3).flatten) :
+    t.2 = none ∧ ∃ bp ∈ groupPreds cl cfg (rqNoToken rq), t = mk cl bp.1 t.1 ∧ bp.2 t.1 = true := by
+  refine ⟨drop3_shardless cl cfg (rqNoToken rq) ρ t h, ?_⟩
+  have : t ∈ (fallbackGroups cl cfg (rqNoToken rq) ρ).flatten := by
+    rw [← List.take_append_drop 3 (fallbackGroups cl cfg (rqNoToken rq) ρ), List.flatten_append]
+    exact List.mem_append_right _ h
+  exact (describes_mem (groups_described cl cfg (rqNoToken rq) ρ) t).mp this
+
+private theorem pref_noToken (cfg : Config) (rq : Request) : preference cfg (rqNoToken rq) = preference cfg rq := rfl
+
+private theorem fp_noToken (cfg : Config) (rq : Request) : failoverPossible cfg (rqNoToken rq) = failoverPossible cfg rq := rfl
+
+/-- Every target of the chain: enabled; and classified as replica (sharded) or node (shard-less ring node). -/
+private theorem chainT_mem {cl : Cluster} (hwf : WF cl) {cfg : Config} {rq : Request} {V : Option Nat → List SRep}
+    (hV : TabletOK cl V) {ρ : RhoFb} {t : Target} (h : t ∈ (chainT cl cfg rq V ρ).flatten) :
+    cl.enabled t.1 = true ∧ (t.1 ∈ allNodes cl ∨ t.1 ∈ (V none).map (·.1)) ∧
+      (cfg.failover = false → ∀ d, (preference cfg rq).datacenter = some d → t.1.dc = some d) := by
+  unfold chainT at h
+  rw [List.flatten_append, List.mem_append] at h
+  rcases h with h | h
+  · split at h
+    · obtain ⟨crit, r, hr, rfl, hc1, hc2⟩ := mem_replicaGroupsT h
+      obtain ⟨h1, h2, _⟩ := mem_filteredT hr
+      have hin : r ∈ V none := by
+        cases hd : crit.datacenter with
+        | none => rw [hd] at h1; exact h1
+        | some d => rw [hd] at h1; exact (hV.dcSub d r h1).1
+      refine ⟨alive_enabled h2, Or.inr (List.mem_map.mpr ⟨r, hin, rfl⟩), ?_⟩
+      intro hfo d hd
+      cases hcd : crit.datacenter with
+      | none =>
+        rcases hc2 hcd with h' | h'
+        · rw [hd] at h'; cases h'
+        · rw [(failoverPossible_iff cfg rq)] at h'; rw [hfo] at h'; cases h'.2
+      | some d' =>
+        rw [hcd] at h1
+        rcases hc1 with h' | h'
+        · rw [hcd] at h'; cases h'
+        · rw [hcd, hd] at h'
+          simp only [Option.some.injEq] at h'
+          subst h'
+          exact (hV.dcSub _ r h1).2
+    · simp at h
+  · obtain ⟨_, bp, hbp, _, h2⟩ := mem_nodeGroupsT h
+    refine ⟨groupPreds_enabled hbp h2, Or.inl (groupPreds_ring hwf hbp h2), ?_⟩
+    intro hfo d hd
+    exact groupPreds_dc hwf hfo (by rw [pref_noToken]; exact hd) hbp h2
+
+private theorem fit_replicaT (cl : Cluster) (V : Option Nat → List SRep) (crit : Pref) (lwt : Bool) (i j : Nat) (shuf : List Nat) :
+    Fit ((pickReplicaT cl V crit lwt i j).map retPickedT) (replicaTargetsT cl V crit lwt shuf) := by
+  have hnil : filteredT cl V crit = [] → replicaTargetsT cl V crit lwt shuf = [] := by
+    intro h; unfold replicaTargetsT; rw [h]; cases lwt <;> simp [shuffleWith_nil]
+  constructor
+  · intro t h
+    obtain ⟨pk, hpk, hr⟩ := Option.map_eq_some_iff.mp h
+    cases pk with
+    | toBeComputedInFallback => cases hr
+    | computed r =>
+      simp only [retPickedT, Option.some.injEq] at hr
+      subst hr
+      rw [mem_replicaTargetsT]
+      refine ⟨r, ?_, rfl⟩
+      unfold pickReplicaT at hpk
+      cases lwt with
+      | true =>
+        simp only [if_true] at hpk
+        unfold pickFirstT at hpk
+        cases crit with
+        | any =>
+          simp only [Option.map_eq_some_iff] at hpk
+          obtain ⟨p, hp, hf⟩ := hpk
+          split at hf
+          · rename_i ha
+            simp only [PickedT.computed.injEq] at hf
+            subst hf
+            unfold filteredT predT
+            exact List.mem_filter.mpr ⟨List.mem_of_head? hp, by simp [ha, rackOk]⟩
+          · cases hf
+        | dc d =>
+          simp only [Option.map_eq_some_iff, PickedT.computed.injEq, exists_eq_right] at hpk
+          exact List.mem_of_head? hpk
+        | dcRack d r' =>
+          simp only [Option.map_eq_some_iff, PickedT.computed.injEq, exists_eq_right] at hpk
+          exact List.mem_of_head? hpk
+      | false =>
+        simp only [Bool.false_eq_true, if_false, Option.map_eq_some_iff, PickedT.computed.injEq, exists_eq_right] at hpk
+        unfold chooseFilteredT at hpk
+        unfold filteredT
+        split at hpk
+        · cases hpk
+        · split at hpk
+          · cases hpk
+          · rename_i happy hh
+            split at hpk
+            · rename_i hp
+              simp only [Option.some.injEq] at hpk
+              subst hpk
+              exact List.mem_filter.mpr ⟨List.mem_of_getElem? hh, hp⟩
+            · exact List.mem_of_getElem? hpk
+  · intro h
+    apply hnil
+    have h := Option.map_eq_none_iff.mp h
+    unfold pickReplicaT at h
+    cases lwt with
+    | true =>
+      simp only [if_true] at h
+      unfold pickFirstT at h
+      cases crit with
+      | any =>
+        simp only [Option.map_eq_none_iff, List.head?_eq_none_iff] at h
+        unfold filteredT
+        have : Pref.any.datacenter = none := rfl
+        rw [this, h]; rfl
+      | dc d => simpa only [Option.map_eq_none_iff, List.head?_eq_none_iff] using h
+      | dcRack d r => simpa only [Option.map_eq_none_iff, List.head?_eq_none_iff] using h
+    | false =>
+      simp only [Bool.false_eq_true, if_false, Option.map_eq_none_iff] at h
+      unfold chooseFilteredT at h
+      unfold filteredT
+      split at h
+      · rename_i h0
+        rw [List.length_eq_zero_iff.mp h0]; rfl
+      · split at h
+        · rename_i hh
+          rw [getElem?_mod_none hh]; rfl
+        · split at h
+          · cases h
+          · exact getElem?_mod_none h
+
+private theorem compatT_replica (cl : Cluster) (cfg : Config) (rq : Request) (V : Option Nat → List SRep)
+    (ρp : RhoPick) (ρf : RhoFb) :
+    Compat (if tokenAware cl cfg rq then replicaStepsT cl cfg rq V ρp else [])
+      (if tokenAware cl cfg rq then replicaGroupsT cl cfg rq V ρf else []) := by
+  split
+  · unfold replicaStepsT replicaGroupsT
+    simp only [Compat, and_true]
+    refine ⟨?_, ?_, ?_⟩
+    · cases preference cfg rq with
+      | any => exact fit_none
+      | dc d => exact fit_none
+      | dcRack d r => exact fit_replicaT _ _ _ _ _ _ _
+    · cases (preference cfg rq).datacenter with
+      | none => exact fit_none
+      | some d => exact fit_replicaT _ _ _ _ _ _ _
+    · split
+      · exact fit_replicaT _ _ _ _ _ _ _
+      · exact fit_none
+  · trivial
+
+private theorem compatT {cl : Cluster} (hwf : WF cl) (cfg : Config) (rq : Request) (V : Option Nat → List SRep)
+    (ρp : RhoPick) (ρf : RhoFb) :
+    Compat ((if tokenAware cl cfg rq then replicaStepsT cl cfg rq V ρp else []) ++ (pickSteps cl cfg (rqNoToken rq) ρp).drop 3)
+      (chainT cl cfg rq V ρf) :=
+  compat_append (compatT_replica cl cfg rq V ρp ρf) (compat_drop (pick_compat hwf cfg (rqNoToken rq) ρp ρf) 3)
+
+private theorem fallbackT_eq (cl : Cluster) (cfg : Config) (rq : Request) (V : Option Nat → List SRep) (ρ : RhoFb) :
+    fallbackT cl cfg rq V ρ = uniqueBy (chainT cl cfg rq V ρ).flatten := rfl
+
+/-- In the chain, the replica targets come first and carry a shard; the node targets carry none. -/
+private theorem chainT_split (cl : Cluster) (cfg : Config) (rq : Request) (V : Option Nat → List SRep) (ρ : RhoFb) :
+    ∃ R N, (chainT cl cfg rq V ρ).flatten = R ++ N ∧ (∀ t ∈ R, t.2.isSome = true) ∧ (∀ t ∈ N, t.2 = none) := by
+  refine ⟨((if tokenAware cl cfg rq then replicaGroupsT cl cfg rq V ρ else [])).flatten,
+    ((fallbackGroups cl cfg (rqNoToken rq) ρ).drop 3).flatten, by unfold chainT; rw [List.flatten_append], ?_,
+    drop3_shardless cl cfg (rqNoToken rq) ρ⟩
+  intro t ht
+  split at ht
+  · obtain ⟨_, r, _, rfl, _⟩ := mem_replicaGroupsT ht
+    rfl
+  · simp at ht
+
+/-- A group of the chain is all replicas or all nodes, and (comparator-)equal members of one group are the same target. -/
+private theorem chainT_group_unique {cl : Cluster} (hwf : WF cl) {cfg : Config} {rq : Request} {V : Option Nat → List SRep}
+    (hV : TabletOK cl V) {ρ : RhoFb} {g : List Target} (hg : g ∈ chainT cl cfg rq V ρ) {t u : Target}
+    (ht : t ∈ g) (hu : u ∈ g) (he : targetEq u t = true) : u = t := by
+  have hflat : ∀ x ∈ g, x ∈ (chainT cl cfg rq V ρ).flatten := fun x hx => List.mem_flatten.mpr ⟨g, hg, hx⟩
+  have hnode : u.1 = t.1 := by
+    have hid : u.1.id = t.1.id := by
+      unfold targetEq at he; simp only [Bool.and_eq_true, beq_iff_eq] at he; exact he.1
+    exact hV.distinctIds _ _ (chainT_mem hwf hV (hflat u hu)).2.1 (chainT_mem hwf hV (hflat t ht)).2.1 hid
+  -- same kind of shard marking inside one group
+  have hkind : u.2.isSome = t.2.isSome := by
+    unfold chainT at hg
+    rcases List.mem_append.mp hg with hg | hg
+    · have hs : ∀ x ∈ g, x.2.isSome = true := by
+        intro x hx
+        split at hg
+        · obtain ⟨_, r, _, rfl, _⟩ := mem_replicaGroupsT (List.mem_flatten.mpr ⟨g, hg, hx⟩)
+          rfl
+        · simp at hg
+      rw [hs u hu, hs t ht]
+    · have hs : ∀ x ∈ g, x.2 = none := fun x hx =>
+        drop3_shardless cl cfg (rqNoToken rq) ρ x (List.mem_flatten.mpr ⟨g, hg, hx⟩)
+      rw [hs u hu, hs t ht]
+  unfold targetEq at he
+  simp only [Bool.and_eq_true, beq_iff_eq] at he
+  cases hu2 : u.2 with
+  | none =>
+    cases ht2 : t.2 with
+    | none => exact Prod.ext hnode (by rw [hu2, ht2])
+    | some y => rw [hu2, ht2] at hkind; cases hkind
+  | some x =>
+    cases ht2 : t.2 with
+    | none => rw [hu2, ht2] at hkind; cases hkind
+    | some y =>
+      rw [hu2, ht2] at he
+      have hxy : x = y := by simpa using he.2
+      exact Prod.ext hnode (by rw [hu2, ht2, hxy])
+
+/-- What `pick` answers on a tablet table: a literal member of `fallback` (whatever the random choices of the latter);
+a shard-less answer only when no replica group has a member. -/
+theorem pickT_spec {cl : Cluster} (hwf : WF cl) (cfg : Config) (rq : Request) {V : Option Nat → List SRep}
+    (hV : TabletOK cl V) (ρp : RhoPick) (ρf : RhoFb) {t : Target} (h : pickT cl cfg rq V ρp = some t) :
+    t ∈ fallbackT cl cfg rq V ρf ∧ (t.2 = none → ∀ u ∈ fallbackT cl cfg rq V ρf, u.2 = none) := by
+  have hfr : firstReturn ((if tokenAware cl cfg rq then replicaStepsT cl cfg rq V ρp else []) ++
+      (pickSteps cl cfg (rqNoToken rq) ρp).drop 3) = some (some t) := by
+    unfold pickT at h
+    cases hf : firstReturn ((if tokenAware cl cfg rq then replicaStepsT cl cfg rq V ρp else []) ++
+        (pickSteps cl cfg (rqNoToken rq) ρp).drop 3) with
+    | none => rw [hf] at h; cases h
+    | some r => rw [hf] at h; simp only [Option.getD_some] at h; rw [h]
+  obtain ⟨pre, g, post, e, hpre, htg⟩ := firstReturn_groups (compatT hwf cfg rq V ρp ρf) hfr
+  have hmem : t ∈ fallbackT cl cfg rq V ρf := by
+    rw [fallbackT_eq, e, List.flatten_append, flatten_nil_of_all_nil hpre, List.nil_append, List.flatten_cons]
+    apply mem_uniqueByFrom_append_left
+    apply mem_uniqueByFrom_of_unique htg _ (by simp)
+    intro u hu he
+    exact chainT_group_unique hwf hV (by rw [e]; simp) htg hu he
+  refine ⟨hmem, ?_⟩
+  intro hnone u hu
+  -- a shard-less answer: the replica steps all fell through, so the replica groups are empty
+  rw [firstReturn_append] at hfr
+  have hA : firstReturn (if tokenAware cl cfg rq then replicaStepsT cl cfg rq V ρp else []) = none := by
+    cases hA : firstReturn (if tokenAware cl cfg rq then replicaStepsT cl cfg rq V ρp else []) with
+    | none => rfl
+    | some r =>
+      rw [hA] at hfr
+      simp only [Option.some.injEq] at hfr
+      subst hfr
+      obtain ⟨_, g', _, e', _, htg'⟩ := firstReturn_groups (compatT_replica cl cfg rq V ρp ρf) hA
+      have : t ∈ (if tokenAware cl cfg rq then replicaGroupsT cl cfg rq V ρf else []).flatten :=
+        List.mem_flatten.mpr ⟨g', by rw [e']; simp, htg'⟩
+      split at this
+      · obtain ⟨_, r, _, rfl, _⟩ := mem_replicaGroupsT this
+        cases hnone
+      · simp at this
+  have hempty := compat_all_none (compatT_replica cl cfg rq V ρp ρf) (firstReturn_none_all hA)
+  have huc : u ∈ (chainT cl cfg rq V ρf).flatten := (uniqueByFrom_sublist [] _).subset hu
+  unfold chainT at huc
+  rw [List.flatten_append, flatten_nil_of_all_nil hempty, List.nil_append] at huc
+  exact drop3_shardless cl cfg (rqNoToken rq) ρf u huc
+
+private theorem fallbackT_pairwise (cl : Cluster) (cfg : Config) (rq : Request) (V : Option Nat → List SRep) (ρ : RhoFb) :
+    (fallbackT cl cfg rq V ρ).Pairwise (fun a b => targetEq a b = false) := (uniqueBy_spec _).2.1
+
+private theorem fallbackT_sub {cl : Cluster} {cfg : Config} {rq : Request} {V : Option Nat → List SRep} {ρ : RhoFb}
+    {t : Target} (h : t ∈ fallbackT cl cfg rq V ρ) : t ∈ (chainT cl cfg rq V ρ).flatten :=
+  (uniqueByFrom_sublist [] _).subset h
+
+/-- **Tablet tables, no target twice**: no two targets of the plan are equal under the policy's comparator - never the
+same `(node, shard)` twice, never a node both with and without a shard; a node the tablet lists with two different
+shards is two different targets (the `(Some x, Some y)` arm of the comparator). -/
+theorem tplan_no_equal_targets {cl : Cluster} (hwf : WF cl) (cfg : Config) (rq : Request) {V : Option Nat → List SRep}
+    (hV : TabletOK cl V) (ρp : RhoPick) (ρf : RhoFb) :
+    (planT cl cfg rq V ρp ρf).Pairwise (fun a b => targetEq a b = false) :=
+  planOf_pairwise_ne (fallbackT_pairwise cl cfg rq V ρf) (fun _ h => (pickT_spec hwf cfg rq hV ρp ρf h).1)
+
+theorem tplan_mem_iff {cl : Cluster} (hwf : WF cl) (cfg : Config) (rq : Request) {V : Option Nat → List SRep}
+    (hV : TabletOK cl V) (ρp : RhoPick) (ρf : RhoFb) (t : Target) :
+    t ∈ planT cl cfg rq V ρp ρf ↔ t ∈ fallbackT cl cfg rq V ρf :=
+  planOf_mem_of_pairwise (fallbackT_pairwise cl cfg rq V ρf) (fun _ h => (pickT_spec hwf cfg rq hV ρp ρf h).1) t
+
+/-- **Tablet tables**: no disabled node; only the preferred datacenter when failover is not permitted. -/
+theorem tplan_excludes_disabled_stays_in_dc {cl : Cluster} (hwf : WF cl) (cfg : Config) (rq : Request)
+    {V : Option Nat → List SRep} (hV : TabletOK cl V) (ρp : RhoPick) (ρf : RhoFb) :
+    ∀ t ∈ planT cl cfg rq V ρp ρf, t.1.id ∉ cl.disabled ∧
+      (cfg.failover = false → ∀ d, (preference cfg rq).datacenter = some d → t.1.dc = some d) := by
+  intro t ht
+  obtain ⟨he, _, hdc⟩ := chainT_mem hwf hV (fallbackT_sub ((tplan_mem_iff hwf cfg rq hV ρp ρf t).mp ht))
+  refine ⟨?_, hdc⟩
+  unfold Cluster.enabled at he
+  exact of_decide_eq_true he
+
+/-- **Tablet tables, completeness**: every enabled token-owning node the datacenter rule permits occurs. -/
+theorem tplan_complete {cl : Cluster} (hwf : WF cl) (cfg : Config) (rq : Request) {V : Option Nat → List SRep}
+    (hV : TabletOK cl V) (ρp : RhoPick) (ρf : RhoFb) {n : Node} (hn : n ∈ allNodes cl) (he : n.id ∉ cl.disabled)
+    (hperm : Permitted cfg rq n) : ∃ t ∈ planT cl cfg rq V ρp ρf, t.1 = n := by
+  -- the ring plan of the token-less request contains n (plan_complete); its shard-less target is in the node groups
+  obtain ⟨t0, ht0, ht0n⟩ := plan_complete hwf cfg (rqNoToken rq) ρp ρf hn he hperm
+  have ht0f := (plan_mem_iff hwf cfg (rqNoToken rq) ρp ρf t0).mp ht0
+  rw [fallback_eq_dedup] at ht0f
+  have hin := (mem_dedupFrom ht0f).1
+  -- a token-less request has no replica groups: the first three groups are empty
+  have hno : tokenWithStrategy cl cfg (rqNoToken rq) = none := by
+    unfold tokenWithStrategy rqNoToken; split <;> rfl
+  have hin3 : t0 ∈ ((fallbackGroups cl cfg (rqNoToken rq) ρf).drop 3).flatten := by
+    rw [← List.take_append_drop 3 (fallbackGroups cl cfg (rqNoToken rq) ρf), List.flatten_append, List.mem_append] at hin
+    rcases hin with h | h
+    · exfalso
+      unfold fallbackGroups at h
+      simp [hno] at h
+    · exact h
+  have hc : t0 ∈ (chainT cl cfg rq V ρf).flatten := by
+    unfold chainT; rw [List.flatten_append]; exact List.mem_append_right _ hin3
+  obtain ⟨u, hu, hut⟩ := (uniqueBy_spec (chainT cl cfg rq V ρf).flatten).2.2 t0 hc
+  refine ⟨u, (tplan_mem_iff hwf cfg rq hV ρp ρf u).mpr hu, ?_⟩
+  have hid : u.1.id = t0.1.id := by
+    unfold targetEq at hut; simp only [Bool.and_eq_true, beq_iff_eq] at hut; exact hut.1
+  rw [← ht0n]
+  exact hV.distinctIds _ _ (chainT_mem hwf hV (fallbackT_sub hu)).2.1 (Or.inl (ht0n ▸ hn)) hid
+
+/-- **Tablet tables, order**: the targets carrying a shard - the live replicas of the tablet - precede all others. -/
+theorem tplan_replicas_first {cl : Cluster} (hwf : WF cl) (cfg : Config) (rq : Request) {V : Option Nat → List SRep}
+    (hV : TabletOK cl V) (ρp : RhoPick) (ρf : RhoFb) :
+    (planT cl cfg rq V ρp ρf).Pairwise (fun a b => b.2.isSome = true → a.2.isSome = true) := by
+  apply planOf_pairwise_of (fallbackT_pairwise cl cfg rq V ρf)
+  · obtain ⟨R, N, hRN, hR, hN⟩ := chainT_split cl cfg rq V ρf
+    apply List.Pairwise.sublist (uniqueByFrom_sublist [] _)
+    show List.Pairwise _ (chainT cl cfg rq V ρf).flatten
+    rw [hRN, List.pairwise_append]
+    refine ⟨List.Pairwise.imp_of_mem (R := fun _ _ => True) (fun {a b} ha _ _ _ => hR a ha)
+        (List.pairwise_of_forall (fun _ _ => trivial)),
+      List.Pairwise.imp_of_mem (R := fun _ _ => True) (fun {a b} _ hb _ h => by rw [hN b hb] at h; cases h)
+        (List.pairwise_of_forall (fun _ _ => trivial)), fun a ha _ _ _ => hR a ha⟩
+  · intro t hpk u hu hus
+    cases ht : t.2 with
+    | some x => rfl
+    | none =>
+      have := (pickT_spec hwf cfg rq hV ρp ρf hpk).2 ht u hu
+      rw [this] at hus; cases hus
+
+/-- **Tablet tables, who carries a shard**: exactly the live replicas of the tablet (of the preferred datacenter unless
+failover is permitted or none is preferred), with the tablet's shard. -/
+theorem tplan_sharded_are_live_replicas {cl : Cluster} (hwf : WF cl) (cfg : Config) (rq : Request)
+    {V : Option Nat → List SRep} (hV : TabletOK cl V) (ρp : RhoPick) (ρf : RhoFb) {t : Target}
+    (ht : t ∈ planT cl cfg rq V ρp ρf) (hs : t.2.isSome = true) :
+    ∃ r ∈ V none, t = (r.1, some r.2) ∧ cl.alive r.1 = true := by
+  have hc := fallbackT_sub ((tplan_mem_iff hwf cfg rq hV ρp ρf t).mp ht)
+  unfold chainT at hc
+  rw [List.flatten_append, List.mem_append] at hc
+  rcases hc with hc | hc
+  · split at hc
+    · obtain ⟨crit, r, hr, rfl, _⟩ := mem_replicaGroupsT hc
+      obtain ⟨h1, h2, _⟩ := mem_filteredT hr
+      refine ⟨r, ?_, rfl, h2⟩
+      cases hd : crit.datacenter with
+      | none => rw [hd] at h1; exact h1
+      | some d => rw [hd] at h1; exact (hV.dcSub d r h1).1
+    · simp at hc
+  · rw [drop3_shardless cl cfg (rqNoToken rq) ρf t hc] at hs; cases hs
+
+/-- **Tablet tables, LWT**: for a request routed as LWT the replica part of `fallback` does not depend on the random
+choices: it is the de-duplication of the filtered tablet lists (tablet definition order). -/
+theorem tplan_lwt_deterministic (cl : Cluster) (cfg : Config) (rq : Request) (V : Option Nat → List SRep)
+    (hlwt : rq.routeAsLwt = true) (ρ ρ' : RhoFb) :
+    (fallbackT cl cfg rq V ρ).filter (·.2.isSome) = (fallbackT cl cfg rq V ρ').filter (·.2.isSome) := by
+  have key : ∀ ρ : RhoFb, (fallbackT cl cfg rq V ρ).filter (·.2.isSome) =
+      uniqueBy (if tokenAware cl cfg rq then replicaGroupsT cl cfg rq V ⟨[], [], [], 0, 0, 0⟩ else []).flatten := by
+    intro ρ
+    have hind : (if tokenAware cl cfg rq then replicaGroupsT cl cfg rq V ρ else []) =
+        (if tokenAware cl cfg rq then replicaGroupsT cl cfg rq V ⟨[], [], [], 0, 0, 0⟩ else []) := by
+      split
+      · unfold replicaGroupsT replicaTargetsT; simp only [hlwt, if_true]
+      · rfl
+    rw [fallbackT_eq]
+    unfold chainT
+    rw [List.flatten_append, hind]
+    unfold uniqueBy
+    obtain ⟨seen', happ⟩ := uniqueByFrom_append []
+      (if tokenAware cl cfg rq then replicaGroupsT cl cfg rq V ⟨[], [], [], 0, 0, 0⟩ else []).flatten
+      ((fallbackGroups cl cfg (rqNoToken rq) ρ).drop 3).flatten
+    rw [happ, List.filter_append]
+    have h1 : (uniqueByFrom [] (if tokenAware cl cfg rq then replicaGroupsT cl cfg rq V ⟨[], [], [], 0, 0, 0⟩
+        else []).flatten).filter (·.2.isSome) = uniqueByFrom [] (if tokenAware cl cfg rq then
+          replicaGroupsT cl cfg rq V ⟨[], [], [], 0, 0, 0⟩ else []).flatten := by
+      apply List.filter_eq_self.mpr
+      intro t ht
+      have := (uniqueByFrom_sublist [] _).subset ht
+      split at this
+      · obtain ⟨_, r, _, rfl, _⟩ := mem_replicaGroupsT this; rfl
+      · simp at this
+    have h2 : (uniqueByFrom seen' ((fallbackGroups cl cfg (rqNoToken rq) ρ).drop 3).flatten).filter (·.2.isSome) = [] :=
+      List.filter_eq_nil_iff.mpr (fun t ht => by
+        rw [drop3_shardless cl cfg (rqNoToken rq) ρ t ((uniqueByFrom_sublist _ _).subset ht)]; simp)
+    rw [h1, h2, List.append_nil]
+  rw [key ρ, key ρ']
+
+end tablets
+
+/-! ### non-vacuity for the tablet theorems: a tablet that lists node 3 with two shards (and the down node 2) -/
+
+open ScyllaVerif.Routing in
+def exRepsT : List SRep :=
+  [(⟨2, some 0, some 1⟩, 1), (⟨3, some 0, some 3⟩, 0), (⟨5, some 1, some 1⟩, 2), (⟨3, some 0, some 3⟩, 4)]
+
+open ScyllaVerif.Routing in
+/-- `replicas_for_token` / `dc_replicas_for_token` of that tablet. -/
+def exVT : Option Nat → List SRep := fun dc =>
+  match dc with
+  | none => exRepsT
+  | some d => exRepsT.filter (fun r => r.1.dc == some d)
+
+example : TabletOK exCluster exVT := by
+  have hsub : ∀ a ∈ (exVT none).map (·.1), a ∈ allNodes exCluster := by decide
+  have hd : ∀ a ∈ allNodes exCluster, ∀ b ∈ allNodes exCluster, a.id = b.id → a = b := by decide
+  refine ⟨?_, ?_⟩
+  · intro d r hr
+    simp only [exVT, List.mem_filter, beq_iff_eq] at hr
+    exact ⟨hr.1, hr.2⟩
+  · intro a b ha hb hab
+    exact hd a (ha.elim id (hsub a)) b (hb.elim id (hsub b)) hab
+
+-- node 3 is planned twice, once per tablet shard (the two-shards arm of the comparator), never shard-less; the down
+-- replica 2 comes last, without shard
+open ScyllaVerif.Routing in
+example : (planT exCluster exCfg exRq exVT ρp0 ρf0).map (fun t => (t.1.id, t.2)) =
+    [(3, some 0), (3, some 4), (5, some 2), (1, none), (4, none), (6, none), (2, none)] := by decide
+
 end ScyllaVerif.Props.C05
